@@ -14,7 +14,7 @@ followed by `if (exc_pending) return`; invoke branches to the landing pad; resum
 """
 import re, sys, collections, json
 
-TOK = re.compile(r'''\s*(c"(?:[^"\\]|\\[0-9A-Fa-f]{2})*"|[%@]"(?:[^"\\]|\\.)*"|[%@][-a-zA-Z$._0-9]+|![a-zA-Z0-9_.]*|\#\d+|-?\d+\.\d+(?:e[+-]?\d+)?|0x[0-9A-Fa-f]+|-?\d+|\.\.\.|[a-zA-Z_][a-zA-Z0-9_.]*|[\[\]{}<>()*,=:!])''')
+TOK = re.compile(r'''\s*(c"(?:[^"\\]|\\\\|\\[0-9A-Fa-f]{2})*"|[%@]"(?:[^"\\]|\\.)*"|[%@][-a-zA-Z$._0-9]+|![a-zA-Z0-9_.]*|\#\d+|-?\d+\.\d+(?:e[+-]?\d+)?|0x[0-9A-Fa-f]+|-?\d+|\.\.\.|[a-zA-Z_][a-zA-Z0-9_.]*|[\[\]{}<>()*,=:!])''')
 
 def tokenize(s):
     out = []; i = 0; n = len(s)
@@ -253,7 +253,8 @@ def parse_ctree(p, ty):
     if x[0] == 'c' and len(x) > 1 and x[1] == '"':
         p.next(); s = x[2:-1]; bs = []; i = 0
         while i < len(s):
-            if s[i] == '\\': bs.append(int(s[i+1:i+3], 16)); i += 3
+            if s[i] == '\\' and s[i+1] == '\\': bs.append(0x5c); i += 2
+            elif s[i] == '\\': bs.append(int(s[i+1:i+3], 16)); i += 3
             else: bs.append(ord(s[i])); i += 1
         return ('agg', [(I8, ('int', b)) for b in bs])
     if x == '[':
@@ -594,9 +595,13 @@ def main():
     text = '\n'.join(o) + '\n'
     base_lines = text.count('\n')
     # functions: compute line numbers of loop back edges
-    for ftxt, loops in out_funcs:
-        for lp in loops: lp['c_line'] = base_lines + 1 + lp.pop('rel_line')
+    SRCMAP = {}
+    for ftxt, loops, smap in out_funcs:
+        for lp in loops: lp['c_line'] = base_lines + 1 + lp.pop('rel_line'); lp.pop('srcmap', None)
         LOOPS.extend(loops)
+        for rel, dbg in smap:
+            di = dbg_info(dbg)
+            if di: SRCMAP[base_lines + 1 + rel] = '%s:%d' % ('<'.join(x or '?' for x in di['chain'][:3]), di['line'])
         text += ftxt + '\n'
         base_lines += ftxt.count('\n') + 1
     text += '/* ---- run-time stubs ---- */\nint exc_pending = 0;\n' + '\n'.join(stubs) + '\n'
@@ -605,7 +610,8 @@ def main():
         json.dump({'loops': LOOPS, 'functions': [gname(f['name']) for f in fdefs if f['body'] is not None],
                    'externals': [gname(f['name']) for f in fdefs if f['body'] is None],
                    'src_functions': sorted(set(x for f in fdefs if f['body'] is not None for x in f.get('src_fns', []))),
-                   'globals': [{'c': gname(n), 'kind': k, 'size': size_of(t)} for (n, t, _, e, k) in ginfo if n in gtrees]}, open(loops_out, 'w'), indent=0)
+                   'globals': [{'c': gname(n), 'kind': k, 'size': size_of(t)} for (n, t, _, e, k) in ginfo if n in gtrees],
+                   'srcmap': SRCMAP}, open(loops_out, 'w'), indent=0)
 
 MAY_THROW = set()
 def compute_may_throw(fdefs):
@@ -683,7 +689,11 @@ def emit_fn(fn):
             if not toks: continue
             p = P(toks)
             try:
+                n0 = len(outl)
                 emit_inst(p, outl, decls, phis, lab_)
+                if CUR['dbg']:
+                    for k_ in range(n0, len(outl)):
+                        if not outl[k_].startswith('@@DBG'): outl[k_] = '@@DBG%s@@%s' % (CUR['dbg'], outl[k_])
             except Exception as e:
                 raise Exception('%s\n  in fn %s: %s' % (e, fn['name'][:80], ln[:300]))
         code[lab_] = outl
@@ -696,7 +706,7 @@ def emit_fn(fn):
     for k, t in fn['byval'].items():
         use_type(t)
         res.append('  %s %s_byval = *%s; %s = &%s_byval;' % (ctype(t), lname(argn[k]), lname(argn[k]), lname(argn[k]), lname(argn[k])))
-    seen_labels = set(); loops = []
+    seen_labels = set(); loops = []; srcmap = []
     cfn = gname(fn['name'])
     succ = {}
     for (lab_, lns) in blocks:
@@ -731,6 +741,7 @@ def emit_fn(fn):
                     res.append('  %s_phi = %s;' % (dst, val))
                 stmt = l[6:]
                 res.append('  ' + stmt)
+                if dbg: srcmap.append((len(res) - 1, dbg))
                 # loop back edges, in textual order of the goto statements
                 for gm in re.finditer(r'goto (L_\w+);', stmt):
                     if gm.group(1) in seen_labels:
@@ -738,9 +749,12 @@ def emit_fn(fn):
                         sfn, common = loop_src('L_' + cid(lab_), gm.group(1))
                         loops.append({'cfn': cfn, 'idx': len(loops), 'header': gm.group(1), 'rel_line': len(res) - 1,
                                       'src_fn': sfn, 'src_line': di.get('line'), 'chain': common})
-            else: res.append('  ' + l)
+            else:
+                res.append('  ' + l)
+                if dbg: srcmap.append((len(res) - 1, dbg))
     res.append('}')
-    return ('\n'.join(res), loops)
+    for lp in loops: lp['srcmap'] = None
+    return ('\n'.join(res), loops, srcmap)
 
 def lab(x): return 'L_' + cid(x[1:].strip('"'))
 
